@@ -1,5 +1,256 @@
-(* Corr/TotalCorr.v — correspondence entry points (cross-format properties). *)
+(* Corr/TotalCorr.v — correspondence entry points (cross-format properties C11, C18);
+   mirrors harness/total.go.
+
+   C18, kinds stop_<iterator>: the case ends with the stop position p (0: never
+   stop); the observable is [i0 [item ...]] — what the consumer
+       n := 0; for x := range it { record x; n++; if n == p { break } }
+   saw — or [i2] when the run-time check fired (model: status PanicAfterStop).
+     stop_fasta_reader stop_fastq_reader stop_bed_reader : [bytes term p]
+     stop_fasta_file   stop_fastq_file   stop_bed_file   : [opened bytes p]
+     stop_newick_reader  : [bytes term foracle p]     stop_newick_file : [opened bytes foracle p]
+     stop_sam_readerheader stop_sam_reader : [bytes term foracle p]
+     stop_sam_fileheader   stop_sam_file   : [opened bytes foracle p]
+     stop_preorder stop_postorder : [tree p]            items = paths
+     stop_foreach  : [[sequence ...] p]                 -> [i0 [count [all items, sorted, when count = all]]]
+     stop_canon    : [seq k p]
+   Items are encoded as in the <fmt>_decode kinds of the family files.
+
+   C11, kinds total_<fmt>: [bytes term (foracle)] -> the items / outcome, as the
+   <fmt>_decode kinds; sam_lines: [[line ...] foracle classes] -> items of
+   ReaderHeader on the lines, each followed by LF. *)
 From Coq Require Import String.
 From Bio Require Import Base.
+From Bio.Model Require Import Iter Iterators.
+From Bio.Model Require Fasta Fastq Sam Bed Newick Trie Seq Smtext.
+From Bio.Corr Require FastaCorr FastqCorr SamCorr BedCorr NewickCorr SmtextCorr.
 
-Definition corr_total : list (string * (val -> val)) := [].
+Definition v_run {A} (f : A -> val) (r : list A * status) : val :=
+  match snd r with
+  | Done => v_ok (VL (map f (fst r)))
+  | PanicAfterStop => v_panic
+  end.
+
+Definition as_nat (v : val) : option nat := match v with VI z => Some (Z.to_nat z) | _ => None end.
+Definition as_opened (v : val) : option bool :=
+  match v with VI 0%Z => Some false | VI 1%Z => Some true | _ => None end.
+
+(* [bytes term p] *)
+Definition c_stop_reader {A} (it : bytes -> term -> seqT A) (f : A -> val) (v : val) : val :=
+  match v with
+  | VL [VB w; tv; pv] =>
+    match as_term tv, as_nat pv with
+    | Some t, Some p => v_run f (run_until (it w t) p)
+    | _, _ => v_bad
+    end
+  | _ => v_bad
+  end.
+
+(* [opened bytes p]: a file that opened is read to a clean EOF *)
+Definition c_stop_file {A} (it : bool -> bytes -> term -> seqT A) (f : A -> val) (v : val) : val :=
+  match v with
+  | VL [ov; VB w; pv] =>
+    match as_opened ov, as_nat pv with
+    | Some op, Some p => v_run f (run_until (it op w TEOF) p)
+    | _, _ => v_bad
+    end
+  | _ => v_bad
+  end.
+
+(* [bytes term foracle p] *)
+Definition c_stop_reader_o {A} (it : foracle -> bytes -> term -> seqT A) (f : A -> val) (v : val) : val :=
+  match v with
+  | VL [VB w; tv; fv; pv] =>
+    match as_term tv, as_foracle fv, as_nat pv with
+    | Some t, Some o, Some p => v_run f (run_until (it o w t) p)
+    | _, _, _ => v_bad
+    end
+  | _ => v_bad
+  end.
+
+(* [opened bytes foracle p] *)
+Definition c_stop_file_o {A} (it : bool -> foracle -> bytes -> term -> seqT A) (f : A -> val) (v : val) : val :=
+  match v with
+  | VL [ov; VB w; fv; pv] =>
+    match as_opened ov, as_foracle fv, as_nat pv with
+    | Some op, Some o, Some p => v_run f (run_until (it op o w TEOF) p)
+    | _, _, _ => v_bad
+    end
+  | _ => v_bad
+  end.
+
+Definition vi_fasta := v_item FastaCorr.v_fasta.
+Definition vi_fastq := v_item FastqCorr.v_fastq.
+Definition vi_bed := v_item BedCorr.v_bed.
+Definition vi_tree := v_item NewickCorr.val_of_tree.
+Definition vi_entry := v_item SamCorr.v_entry.
+Definition vi_sam := v_item SamCorr.v_sam.
+
+(* newick: a Panic of the reader model is a panic of the run *)
+Definition c_stop_newick_reader (v : val) : val :=
+  match v with
+  | VL [VB w; tv; fv; pv] =>
+    match as_term tv, as_foracle fv with
+    | Some t, Some o =>
+      match Newick.decode o w t with
+      | Ok _ => c_stop_reader_o newick_reader vi_tree v
+      | _ => v_panic
+      end
+    | _, _ => v_bad
+    end
+  | _ => v_bad
+  end.
+
+Definition c_stop_newick_file (v : val) : val :=
+  match v with
+  | VL [ov; VB w; fv; pv] =>
+    match as_opened ov, as_foracle fv with
+    | Some op, Some o =>
+      match op, Newick.decode o w TEOF with
+      | true, Ok _ | false, _ => c_stop_file_o newick_file vi_tree v
+      | true, _ => v_panic
+      end
+    | _, _ => v_bad
+    end
+  | _ => v_bad
+  end.
+
+Definition c_stop_traverse (pre : bool) (v : val) : val :=
+  match v with
+  | VL [tv; pv] =>
+    match NewickCorr.tree_of_val tv, as_nat pv with
+    | Some t, Some p =>
+      match Newick.traverse pre t with
+      | Ok _ => v_run (fun x : Newick.occ => NewickCorr.val_of_path (fst x))
+                      (run_until (if pre then pre_order t else post_order t) p)
+      | _ => v_panic
+      end
+    | _, _ => v_bad
+    end
+  | _ => v_bad
+  end.
+
+Definition c_stop_foreach (v : val) : val :=
+  match v with
+  | VL [sv; pv] =>
+    match as_bytes_list sv, as_nat pv with
+    | Some seqs, Some p =>
+      let t := fold_left (fun t b => Trie.add b t) seqs Trie.empty in
+      match Trie.for_each t with
+      | Ok all =>
+        let r := run_until (for_each t) p in
+        match snd r with
+        | Done =>
+          let n := length (fst r) in
+          v_ok (VL [VI (Z.of_nat n); VL (if Nat.eqb n (length all) then map VB (fst r) else [])])
+        | PanicAfterStop => v_panic
+        end
+      | _ => v_panic
+      end
+    | _, _ => v_bad
+    end
+  | _ => v_bad
+  end.
+
+Definition c_stop_canon (v : val) : val :=
+  match v with
+  | VL [VB s; VI k; pv] =>
+    match as_nat pv with
+    | Some p =>
+      match Seq.canon s k with
+      | Ok _ => v_run VB (run_until (canonical_subsequences s k) p)
+      | _ => v_panic
+      end
+    | None => v_bad
+    end
+  | _ => v_bad
+  end.
+
+(* ---- C11 ------------------------------------------------------------------------------------ *)
+Definition c_total_fasta (v : val) : val :=
+  match v with
+  | VL [VB s; tv] =>
+    match as_term tv with Some t => v_items FastaCorr.v_fasta (Fasta.decode s t) | None => v_bad end
+  | _ => v_bad
+  end.
+
+Definition c_total_fastq (v : val) : val :=
+  match v with
+  | VL [VB s; tv] =>
+    match as_term tv with Some t => v_items FastqCorr.v_fastq (Fastq.decode s t) | None => v_bad end
+  | _ => v_bad
+  end.
+
+Definition c_total_bed (v : val) : val :=
+  match v with
+  | VL [VB s; tv] =>
+    match as_term tv with Some t => v_items BedCorr.v_bed (Bed.decode s t) | None => v_bad end
+  | _ => v_bad
+  end.
+
+Definition c_total_sam (v : val) : val :=
+  match v with
+  | VL [VB s; tv; fv] =>
+    match as_term tv, as_foracle fv with
+    | Some t, Some o => v_items SamCorr.v_entry (Sam.reader_header o s t)
+    | _, _ => v_bad
+    end
+  | _ => v_bad
+  end.
+
+Definition c_total_newick (v : val) : val :=
+  match v with
+  | VL [VB s; tv; fv] =>
+    match as_term tv, as_foracle fv with
+    | Some t, Some o => NewickCorr.v_decoded (Newick.decode o s t)
+    | _, _ => v_bad
+    end
+  | _ => v_bad
+  end.
+
+Definition c_total_smtext (v : val) : val :=
+  match v with
+  | VL [VB s; tv; fv] =>
+    match as_term tv, as_foracle fv with
+    | Some t, Some o => v_outcome SmtextCorr.v_matrix (Smtext.read_ncbi o s t)
+    | _, _ => v_bad
+    end
+  | _ => v_bad
+  end.
+
+(* every line followed by LF; the third field (the generator's classification of
+   the lines) is for the harness oracle only *)
+Definition c_sam_lines (v : val) : val :=
+  match v with
+  | VL [lv; fv; _] =>
+    match as_bytes_list lv, as_foracle fv with
+    | Some ls, Some o =>
+      v_items SamCorr.v_entry (Sam.reader_header o (concat (map (fun l => l ++ [LF]) ls)) TEOF)
+    | _, _ => v_bad
+    end
+  | _ => v_bad
+  end.
+
+Definition corr_total : list (string * (val -> val)) :=
+  [ ("stop_fasta_reader"%string, c_stop_reader fasta_reader vi_fasta);
+    ("stop_fasta_file"%string, c_stop_file fasta_file vi_fasta);
+    ("stop_fastq_reader"%string, c_stop_reader fastq_reader vi_fastq);
+    ("stop_fastq_file"%string, c_stop_file fastq_file vi_fastq);
+    ("stop_bed_reader"%string, c_stop_reader bed_reader vi_bed);
+    ("stop_bed_file"%string, c_stop_file bed_file vi_bed);
+    ("stop_newick_reader"%string, c_stop_newick_reader);
+    ("stop_newick_file"%string, c_stop_newick_file);
+    ("stop_sam_readerheader"%string, c_stop_reader_o sam_reader_header vi_entry);
+    ("stop_sam_reader"%string, c_stop_reader_o sam_reader vi_sam);
+    ("stop_sam_fileheader"%string, c_stop_file_o sam_file_header vi_entry);
+    ("stop_sam_file"%string, c_stop_file_o sam_file vi_sam);
+    ("stop_preorder"%string, c_stop_traverse true);
+    ("stop_postorder"%string, c_stop_traverse false);
+    ("stop_foreach"%string, c_stop_foreach);
+    ("stop_canon"%string, c_stop_canon);
+    ("total_fasta"%string, c_total_fasta);
+    ("total_fastq"%string, c_total_fastq);
+    ("total_bed"%string, c_total_bed);
+    ("total_sam"%string, c_total_sam);
+    ("total_newick"%string, c_total_newick);
+    ("total_smtext"%string, c_total_smtext);
+    ("sam_lines"%string, c_sam_lines) ].
